@@ -11,5 +11,6 @@ CONSTANTS
   GCLag = 0
   CheckStay = TRUE
   Deviation = "StaleKeepsNamed"
+  GCMode = "strict"
 INVARIANTS InvSound InvAdmits InvStay InvProp
 CHECK_DEADLOCK FALSE
